@@ -444,6 +444,9 @@ safe_call_function_pointer (funptr_t * funp, int num_arg)
       restore_context (&econ);
       /* condition was restored to where it was when we came in */
       pop_n_elems (num_arg);
+      /* the budget ran out inside the call: the caller has none left (see safe_apply) */
+      if (get_error_state (ES_MAX_EVAL_COST))
+        eval_cost = 1;
       ret = 0;
     }
   pop_context (&econ);
